@@ -202,13 +202,17 @@ Proof. induction es as [|e r IH]; cbn; [reflexivity|]. rewrite IH. reflexivity. 
 Lemma entries_of_good : forall d nm es t, dget d nm = Some (FWal (map Good es) t) -> entries_of d nm = es.
 Proof. intros d nm es t H. unfold entries_of. rewrite H, read_frames_good. reflexivity. Qed.
 
-Lemma replay_entries_ok : forall c sseq nx es, Forall (entry_ok c nx) es -> forall st mx,
-  replay_entries c sseq (st, mx) es = Ok (replay_pure sseq st es, maxseq mx es).
+Lemma replay_entries_ok : forall c sseq nx es, Forall (entry_ok c nx) es -> forall st mx gap,
+  replay_entries c sseq sseq (st, mx, gap) es = Ok (replay_pure sseq st es, maxseq mx es, gap).
 Proof.
-  intros c sseq nx es H. induction H as [|e r He Hr IH]; intros st mx; [reflexivity|].
+  intros c sseq nx es H. induction H as [|e r He Hr IH]; intros st mx gap; [reflexivity|].
   cbn [replay_entries]. unfold replay_entry.
   destruct He as (H1 & H2 & H3).
   destruct (N.eqb_spec (e_seq e) 0) as [E|E]; [lia|].
+  assert (Hgap : (sseq <? e_seq e) && (e_seq e <=? sseq) = false).
+  { destruct (N.ltb_spec sseq (e_seq e)); [|reflexivity].
+    destruct (N.leb_spec (e_seq e) sseq); [lia|reflexivity]. }
+  rewrite Hgap.
   unfold replay_pure, maxseq. cbn [filter fold_left]. unfold keep_e at 1. unfold covered.
   destruct (0 <? sseq) eqn:A; destruct (0 <? e_seq e) eqn:B; destruct (e_seq e <=? sseq) eqn:C;
     cbn [andb negb];
@@ -217,13 +221,13 @@ Proof.
     apply IH.
 Qed.
 
-Lemma replay_segments_ok : forall c d sseq nx segs st mx,
+Lemma replay_segments_ok : forall c d sseq nx segs st mx gap,
   (forall nm, In nm segs -> wal_good d nm) ->
   Forall (entry_ok c nx) (all_entries d segs) ->
-  replay_segments c Strict d sseq (st, mx) segs
-  = Ok (replay_pure sseq st (all_entries d segs), maxseq mx (all_entries d segs)).
+  replay_segments c Strict d sseq sseq (st, mx, gap) segs
+  = Ok (replay_pure sseq st (all_entries d segs), maxseq mx (all_entries d segs), gap).
 Proof.
-  intros c d sseq nx. induction segs as [|nm rest IH]; intros st mx Hg Hok; [reflexivity|].
+  intros c d sseq nx. induction segs as [|nm rest IH]; intros st mx gap Hg Hok; [reflexivity|].
   destruct (Hg nm (or_introl eq_refl)) as [es Hes].
   cbn [replay_segments]. rewrite Hes. unfold read_all. rewrite read_frames_good.
   change (0 <? 0) with false. cbn iota.
@@ -275,10 +279,12 @@ Proof.
       rewrite Hdi by discriminate. cbn [negb andb].
       destruct (N.eqb_spec (c_dim c) 0); [lia|]. rewrite N.eqb_refl. split; reflexivity. }
     destruct Hchk as [-> ->].
-    rewrite Hd, Hl, (of_list_sorted _ Hso).
-    rewrite (replay_segments_ok c d sseq nx) by assumption. reflexivity.
-  - destruct Hs as [-> ->].
-    rewrite (replay_segments_ok c d 0 nx) by assumption. reflexivity.
+    rewrite Hd, Hl, (of_list_sorted _ Hso), Hq.
+    rewrite (replay_segments_ok c d sseq nx) by assumption.
+    rewrite N.ltb_irrefl. reflexivity.
+  - destruct Hs as [-> ->]. rewrite Hq.
+    rewrite (replay_segments_ok c d 0 nx) by assumption.
+    rewrite N.ltb_irrefl. reflexivity.
 Qed.
 
 (* documents as the engine stores them: right dimension, already normalised, accepted by the index *)
@@ -846,12 +852,12 @@ Proof.
 Qed.
 
 Lemma do_insert_inv : forall c s id v m, norm_ok c -> Inv c s ->
-  op_accepted c (OInsert id v m) = true -> Inv c (fst (fst (do_insert c s id v m))).
+  Inv c (fst (fst (do_insert c s id v m))).
 Proof.
-  intros c s id v m Hn [H M] Hacc. unfold do_insert.
+  intros c s id v m Hn [H M]. unfold do_insert.
   destruct (N.eqb_spec (len v) (c_dim c)) as [Hlen|Hlen]; cbn [negb]; [|exact (conj H M)].
-  cbn [op_accepted] in Hacc.
   destruct (normalize_if_needed c v) as [w|] eqn:Hw; [|exact (conj H M)].
+  destruct (c_accepts c w) eqn:Hacc; cbn [negb]; [|exact (conj H M)].
   destruct (normalize_doc_ok c v w (meta_canon m) Hn Hlen Hw Hacc) as [Hdoc Hlw].
   set (s0 := if (c_capacity c <=? st_slots s) && (size (st_store s) <? st_slots s)
              then with_slots s (size (st_store s)) else s).
@@ -873,7 +879,6 @@ Proof.
   cbn [fst] in A. destruct A as (A1 & A2 & A3 & A4 & A5).
   pose proof (rotate_inv c _ s1 A1) as R.
   destruct (rotate_if_needed c s1) as [s2 e2]. cbn [fst] in R. destruct R as (R1 & R2 & R3 & R4 & R5).
-  rewrite Hacc. cbn [negb].
   match goal with |- context [maybe_snapshot c ?x] => set (s3 := x) end.
   assert (H3 : InvDs c (st_store s3) s3).
   { unfold s3, InvDs. cbn [st_store st_disk st_active st_next_seq]. rewrite R2, A2, E0. exact R1. }
@@ -1006,10 +1011,9 @@ Proof.
   split; [rewrite E1; exact X|]. apply (InvM_eq c s); assumption.
 Qed.
 
-Theorem step_inv : forall c s o, wf_cfg c = true -> norm_ok c -> Inv c s ->
-  op_accepted c o = true -> Inv c (step_state c s o).
+Theorem step_inv : forall c s o, wf_cfg c = true -> norm_ok c -> Inv c s -> Inv c (step_state c s o).
 Proof.
-  intros c s o Hwf Hn HI Ha. unfold step_state. destruct o as [id v m|id|ids|id m mg| |]; cbn [step].
+  intros c s o Hwf Hn HI. unfold step_state. destruct o as [id v m|id|ids|id m mg| |]; cbn [step].
   - apply do_insert_inv; assumption.
   - apply do_delete_inv; assumption.
   - apply do_batch_delete_inv; assumption.
@@ -1037,40 +1041,39 @@ Proof.
     split; [unfold size; cbn [length]; lia|lia].
 Qed.
 
-Theorem run_inv : forall c ops, wf_cfg c = true -> norm_ok c -> ops_accepted c ops = true -> Inv c (run c ops).
+Theorem run_inv : forall c ops, wf_cfg c = true -> norm_ok c -> Inv c (run c ops).
 Proof.
   intros c ops Hwf Hn. unfold run.
-  assert (G : forall ops s, Inv c s -> ops_accepted c ops = true -> Inv c (fold_left (step_state c) ops s)).
-  { induction ops0 as [|o r IH]; intros s HI Ha; [exact HI|].
-    cbn [ops_accepted forallb] in Ha. apply andb_true_iff in Ha. destruct Ha as [Ha Hr].
-    cbn [fold_left]. apply IH; [apply step_inv; assumption|exact Hr]. }
-  intros Ha. apply G; [apply init_inv; exact Hwf|exact Ha].
+  assert (G : forall ops s, Inv c s -> Inv c (fold_left (step_state c) ops s)).
+  { induction ops0 as [|o r IH]; intros s HI; [exact HI|].
+    cbn [fold_left]. apply IH. apply step_inv; assumption. }
+  apply G. apply init_inv. exact Hwf.
 Qed.
 
 (* ------------------------------------------------------------------------------------------ *)
 (* 8. C02                                                                                      *)
 (* ------------------------------------------------------------------------------------------ *)
 
-Theorem restart_lossless : forall c ops, wf_cfg c = true -> norm_ok c -> ops_accepted c ops = true ->
+Theorem restart_lossless : forall c ops, wf_cfg c = true -> norm_ok c ->
   let s := run c ops in
   exists s', recover c Strict (st_disk s) = Ok s' /\ st_store s' = st_store s.
 Proof.
-  intros c ops Hwf Hn Ha s.
-  destruct (recover_inv c s Hwf (run_inv c ops Hwf Hn Ha)) as (s' & effs & E & Es & _).
+  intros c ops Hwf Hn s.
+  destruct (recover_inv c s Hwf (run_inv c ops Hwf Hn)) as (s' & effs & E & Es & _).
   exists s'. unfold recover. rewrite E. split; [reflexivity|exact Es].
 Qed.
 
 (* the recovered engine continues with exactly the live engine's next sequence number, which exceeds
    every sequence number found in the directory *)
-Theorem seq_monotone : forall c ops, wf_cfg c = true -> norm_ok c -> ops_accepted c ops = true ->
+Theorem seq_monotone : forall c ops, wf_cfg c = true -> norm_ok c ->
   let s := run c ops in
   exists s', recover c Strict (st_disk s) = Ok s' /\ st_next_seq s' = st_next_seq s /\
     exists m, load_manifest (st_disk s) = Some m /\
       Forall (fun e => e_seq e < st_next_seq s') (all_entries (st_disk s) (m_segments m)) /\
       opt_or0 (m_snapshot_seq m) < st_next_seq s'.
 Proof.
-  intros c ops Hwf Hn Ha s.
-  pose proof (run_inv c ops Hwf Hn Ha) as HI. fold s in HI.
+  intros c ops Hwf Hn s.
+  pose proof (run_inv c ops Hwf Hn) as HI. fold s in HI.
   destruct (recover_inv c s Hwf HI) as (s' & effs & E & _ & En & _).
   exists s'. unfold recover. rewrite E. split; [reflexivity|]. split; [exact En|].
   destruct HI as [(m & sdocs & sseq & Hm & _ & _ & _ & _ & [Hq _] & Hok & Hmx & _) _].
@@ -1080,34 +1083,31 @@ Proof.
 Qed.
 
 (* any number of consecutive restarts *)
-Theorem restart_chain : forall c ops n, wf_cfg c = true -> norm_ok c -> ops_accepted c ops = true ->
+Theorem restart_chain : forall c ops n, wf_cfg c = true -> norm_ok c ->
   st_store (run c (ops ++ repeat ORestart n)) = st_store (run c ops) /\
   exists s', recover c Strict (st_disk (run c (ops ++ repeat ORestart n))) = Ok s' /\
              st_store s' = st_store (run c ops).
 Proof.
-  intros c ops n Hwf Hn Ha.
-  assert (Hacc : ops_accepted c (ops ++ repeat ORestart n) = true).
-  { unfold ops_accepted in *. rewrite forallb_app, Ha. cbn [andb]. clear. induction n; cbn; auto. }
+  intros c ops n Hwf Hn.
   assert (Hst : st_store (run c (ops ++ repeat ORestart n)) = st_store (run c ops)).
-  { clear Hacc.
-    unfold run. rewrite fold_left_app. fold (run c ops).
-    pose proof (run_inv c ops Hwf Hn Ha) as HI. revert HI. generalize (run c ops) as s.
+  { unfold run. rewrite fold_left_app. fold (run c ops).
+    pose proof (run_inv c ops Hwf Hn) as HI. revert HI. generalize (run c ops) as s.
     induction n as [|k IH]; intros s HI; [reflexivity|].
     cbn [repeat fold_left]. unfold step_state at 2. cbn [step].
     destruct (recover_inv c s Hwf HI) as (s' & effs & E & Es & _ & HI' & _). rewrite E. cbn [fst].
     rewrite (IH s' HI'). exact Es. }
   split; [exact Hst|].
-  destruct (restart_lossless c (ops ++ repeat ORestart n) Hwf Hn Hacc) as (s' & E & Es).
+  destruct (restart_lossless c (ops ++ repeat ORestart n) Hwf Hn) as (s' & E & Es).
   exists s'. split; [exact E|]. rewrite Es. exact Hst.
 Qed.
 
 (* deleted documents never reappear, overwritten versions never resurface: whatever the live engine
    answers for an id is what the restarted engine answers *)
-Theorem no_resurrection : forall c ops id, wf_cfg c = true -> norm_ok c -> ops_accepted c ops = true ->
+Theorem no_resurrection : forall c ops id, wf_cfg c = true -> norm_ok c ->
   let s := run c ops in
   exists s', recover c Strict (st_disk s) = Ok s' /\ get (st_store s') id = get (st_store s) id.
 Proof.
-  intros c ops id Hwf Hn Ha s. destruct (restart_lossless c ops Hwf Hn Ha) as (s' & E & Es).
+  intros c ops id Hwf Hn s. destruct (restart_lossless c ops Hwf Hn) as (s' & E & Es).
   exists s'. split; [exact E|]. rewrite Es. reflexivity.
 Qed.
 
@@ -1209,6 +1209,7 @@ Proof.
   - unfold do_insert in H.
     destruct (negb (len v =? c_dim c)); [inversion H; subst; reflexivity|].
     destruct (normalize_if_needed c v) as [w|]; [|inversion H; subst; reflexivity].
+    destruct (negb (c_accepts c w)) eqn:Hpre; [inversion H; subst; reflexivity|].
     match type of H with context [if c_capacity c <=? st_slots ?x then _ else _] => set (s0 := x) in H end.
     assert (E0 : st_disk s0 = st_disk s) by (unfold s0; destruct (_ && _); reflexivity).
     clearbody s0.
@@ -1216,13 +1217,9 @@ Proof.
     destruct (negb (has_manifest (st_disk s0))); [inversion H; subst; rewrite E0; reflexivity|].
     destruct (append_entries c s0 _) as [s1 e1] eqn:E1.
     destruct (rotate_if_needed c s1) as [s2 e2] eqn:E2.
-    destruct (negb (c_accepts c w)).
-    + destruct (append_entries c s2 _) as [s3 e3] eqn:E3.
-      destruct (rotate_if_needed c s3) as [s4 e4] eqn:E4.
-      inversion H; subst. disk_chain. rewrite !apply_effs_app, <- E0, <- E1, <- E2, <- E3. exact E4.
-    + destruct (maybe_snapshot c _) as [s4 e4] eqn:E4.
-      inversion H; subst. disk_chain. cbn [st_disk] in E4.
-      rewrite !apply_effs_app, <- E0, <- E1, <- E2. exact E4.
+    destruct (maybe_snapshot c _) as [s4 e4] eqn:E4.
+    inversion H; subst. disk_chain. cbn [st_disk] in E4.
+    rewrite !apply_effs_app, <- E0, <- E1, <- E2. exact E4.
   - unfold do_delete in H.
     destruct (get (st_store s) id); [|inversion H; subst; reflexivity].
     destruct (negb (has_manifest (st_disk s))); [inversion H; subst; reflexivity|].
